@@ -6,6 +6,11 @@ Ops (handled by lean/Driver/BlakeD.lean):
   blakeseq.trace <n> <p1> … <pk>         the counters fed to the compression function over all the calls
   blake2seq <b|s> <p1> … <pk>            the same for Blake2 (default parameters)
   blake2seq.trace <b|s> <p1> … <pk>      (byte counter, final flag) of every compression over all the calls
+  blakeseq.h <n> <salt> <tok> … <tok>    a history on ONE object: tok = `init` (h.initstate(salt) again: what was fed before
+                                         is abandoned) | `<hex>` (a piece) | `<hex>/<L>` (a piece given with its bit length:
+                                         update(buf,bitlen=L)); the last token is the final piece
+                                         -> digest ; bitcnt after every non-final token (after `init` too)
+  blake2seq.h <b|s> <tok> … <tok>        the same for Blake2 (no bit lengths: its update has none)
 The driver's spec column is the one-shot Spec.Blake / Spec.Blake2 digest of p1‖…‖pk, the bit counts 8·Σ|p_i|, and the
 one-shot counter / flag rule.  check_impl compares with the one-shot call of the real code itself."""
 import itertools
@@ -45,10 +50,53 @@ def _stream(h, pieces):
     return h.update(pieces[-1], padding=True), cnts
 
 
+def tok_of(t):
+    """'init' or (buffer, bit length or None)"""
+    if t == 'init': return 'init'
+    x, _, l = t.partition('/')
+    return unhx(x), (int(l) if l else None)
+
+
+def _history(h, init, toks, with_bitlen):
+    cnts = []
+    upd = (lambda p, L, **k: h.update(p, bitlen=L, **k)) if with_bitlen else (lambda p, L, **k: h.update(p, **k))
+    for t in toks[:-1]:
+        if t == 'init': init()
+        else: upd(t[0], t[1])
+        cnts.append(h.padmethod.bitcnt)
+    p, L = toks[-1]
+    return upd(p, L, padding=True), cnts
+
+
+def hist_expect(toks, blockbits):
+    """(message bytes, its bit length, bit counts after every non-final token) the property prescribes, None if a step has to
+    be refused"""
+    msg, bits, cnts = b'', 0, []
+    if not toks or toks[-1] == 'init': return None
+    for t in toks[:-1]:
+        if t == 'init': msg, bits = b'', 0
+        else:
+            p, L = t; L = 8 * len(p) if L is None else L
+            if L > 8 * len(p) or L % blockbits: return None
+            msg += p[:L // 8]; bits += L
+        cnts.append(bits)
+    p, L = toks[-1]; L = 8 * len(p) if L is None else L
+    if L > 8 * len(p): return None
+    return msg + p[:(L + 7) // 8], bits + L, cnts
+
+
 def run_impl(line):
     import crysp.blake as BL
     t = line.split(); op, a = t[0], t[1:]
     def go():
+        if op == 'blakeseq.h':
+            h = BL.Blake(int(a[0])); salt = int(a[1]); h.initstate(salt)
+            d, cnts = _history(h, lambda: h.initstate(salt), [tok_of(x) for x in a[2:]], True)
+            return hx(d) + ';' + il(cnts)
+        if op == 'blake2seq.h':
+            h = BL.Blake2(B2[a[0]][0]); h.initstate()
+            d, cnts = _history(h, lambda: h.initstate(), [tok_of(x) for x in a[1:]], False)
+            return hx(d) + ';' + il(cnts)
         if op == 'blakeseq':
             ps = [unhx(x) for x in a[2:]]
             h = BL.Blake(int(a[0])); h.initstate(int(a[1]))
@@ -71,9 +119,30 @@ def run_impl(line):
     return guarded(go)
 
 
+def check_hist(op, a, res):
+    """the run after the last `init` equals the one-shot call of a FRESH object on the concatenation of the first L bits of
+    every piece; the bit counter after every non-final step is the number of bits fed since the last init (0 right after it)"""
+    import crysp.blake as BL
+    toks = [tok_of(x) for x in (a[2:] if op == 'blakeseq.h' else a[1:])]
+    bb = blk(int(a[0])) if op == 'blakeseq.h' else B2[a[0]][1]
+    bad = lambda why: '%s %s tokens %s: %s' % (op, a[0], ['init' if t == 'init' else '%d/%s' % (8 * len(t[0]), t[1]) for t in toks], why)
+    exp = hist_expect(toks, 8 * bb)
+    if exp is None or (op == 'blake2seq.h' and any(t != 'init' and t[1] is not None for t in toks)):
+        return None if res == 'ERR' else bad('a piece that is not whole blocks / a bit length beyond the buffer must be refused')
+    if res == 'ERR': return bad('unexpected exception')
+    M, total, cnts = exp
+    if op == 'blakeseq.h':
+        one = BL.Blake(int(a[0]))(M[:total // 8], int(a[1])) if total % 8 == 0 else BL.Blake(int(a[0]))(M, int(a[1]), bitlen=total)
+    else:
+        one = BL.Blake2(B2[a[0]][0])(M)
+    if res != hx(one) + ';' + il(cnts): return bad('history gives %s, one-shot on a fresh object %s;%s' % (res[:60], hx(one)[:24], il(cnts)))
+    return None
+
+
 def check_impl(line, res):
     import crysp.blake as BL
     t = line.split(); op, a = t[0], t[1:]
+    if op in ('blakeseq.h', 'blake2seq.h'): return check_hist(op, a, res)
     bad = lambda why: '%s: %s' % (op, why)
     first = 2 if op == 'blakeseq' else 1
     ps = [unhx(x) for x in a[first:]]
@@ -121,11 +190,60 @@ def lines_for(kind, v, M, cuts, bb, salt=0):
         yield 'blake2seq.trace %s %s' % (v, toks), 'blake2seq.trace'
 
 
+def hist_lines(kind, v, bb, rng, quick):
+    """pieces with explicit bit lengths (BLAKE), abandoned streams + init (BLAKE and BLAKE2)"""
+    T = lambda p, L=None: hx(p) + ('' if L is None else '/%d' % L)
+    head = ('blakeseq.h %s %d ' % (v, rng.getrandbits(6))) if kind == 'blake' else 'blake2seq.h %s ' % v
+    tag = 'blakeseq.h' if kind == 'blake' else 'blake2seq.h'
+    if kind == 'blake':
+        # one reused buffer of 1-2 blocks, every piece = whole buffer + valid bits (0 bits of a non-empty buffer at the end / on an empty read)
+        for n in (((0, bb - 1, bb, bb + 5, 2 * bb) if v in ('256', '512') else (0, bb, bb + 5)) if quick else (0, 1, bb - 9, bb - 1, bb, bb + 5, 2 * bb, 3 * bb - 1, 4 * bb)):
+            M = rb(rng, n)
+            for bufblocks in (1, 2):
+                for stall in (None, 0, 1):
+                    buf = bytearray(rb(rng, bufblocks * bb)); toks, pos, reads = [], 0, 0
+                    while True:
+                        if reads == stall: k, last = 0, False
+                        else:
+                            chunk = M[pos:pos + len(buf)]; k = len(chunk); buf[:k] = chunk; pos += k; last = k < len(buf)
+                        reads += 1
+                        toks.append(T(buf, 8 * k))
+                        if last: break
+                    yield head + ' '.join(toks), tag + ':readinto buffer'
+        b1, b2, junk, t = rb(rng, bb), rb(rng, 2 * bb), rb(rng, 5), rb(rng, 7)
+        for toks in ([T(t, 0)], [T(b1, 0), T(t)], [T(b1), T(t, 0)], [T(b1), T(b2, 0), T(b1 + junk, 0)], [T(b1), T(junk, 0), T(b2), T(t, 3)],
+                     [T(b1 + junk, 8 * bb), T(t)], [T(b2 + b1, 8 * bb), T(b2, 16 * bb), T(b2 + t, 8 * bb)], [T(b1), T(b2 + junk, 16 * bb)],
+                     [T(b2, 16 * bb), T(b1, 8 * (bb - 9) - 3)]):
+            yield head + ' '.join(toks), tag + ':bitlen'
+        # refused: not whole blocks, beyond the buffer
+        yield head + ' '.join([T(b1, 8), T(t)]), tag + ':refused'
+        yield head + ' '.join([T(b1, 8 * bb + 8), T(t)]), tag + ':refused'
+        yield head + ' '.join([T(b1), T(t, 57)]), tag + ':refused'
+    # histories: k blocks fed and abandoned (or a refused step), init, then a complete piecewise run
+    for k in (1, 2, 3):
+        for bi, before in enumerate(([rb(rng, k * bb)], [rb(rng, bb) for _ in range(k)])):
+            if quick and (bi == 1) != (k == 2): continue
+            for tail in ((0, 11) if quick else (0, 1, 11, bb - 9)):
+                M = rb(rng, 2 * bb + tail)
+                for cuts in (((), (1,), (1, 2), (0, 1, 1)) if quick and v in ('256', '512', 'b', 's') else ((), (1, 2)) if quick else ((), (1,), (2,), (1, 2), (0, 1, 1))):
+                    if kind == 'blake2' and tail == 0 and cuts and cuts[-1] == 2: continue    # empty final piece after data: known finding
+                    ps, p = [], 0
+                    for c in cuts:
+                        ps.append(M[p:c * bb]); p = c * bb
+                    ps.append(M[p:])
+                    yield head + ' '.join([T(x) for x in before] + ['init'] + [T(x) for x in ps]), tag + ':abandoned stream, init, stream'
+    yield head + 'init init ' + T(rb(rng, 3)), tag + ':abandoned stream, init, stream'
+    yield head + T(rb(rng, bb)) + ' init', tag + ':refused'
+
+
 def cases(tier, rng):
     variants = [('blake', str(n), blk(n)) for n in (224, 256, 384, 512)] + [('blake2', v, B2[v][1]) for v in 'bs']
     if tier == 'search':
         while True:
             kind, v, bb = rng.choice(variants)
+            if rng.randrange(3) == 0:
+                yield rng.choice(list(hist_lines(kind, v, bb, rng, True)))
+                continue
             nb = rng.randrange(0, 6)
             tail = rng.choice([0, 1, bb - 9, bb - 1, bb, bb + 1, rng.randrange(0, 2 * bb)])
             cuts = sorted(rng.randrange(0, nb + 1) for _ in range(rng.randrange(0, 4)))
@@ -147,6 +265,7 @@ def cases(tier, rng):
             nb = rng.randrange(5, 9 if quick else 17)
             cuts = sorted(rng.randrange(0, nb + 1) for _ in range(rng.randrange(1, 5)))
             yield from lines_for(kind, v, rb(rng, nb * bb + rng.randrange(0, bb + 2)), cuts, bb, rng.getrandbits(16))
+        yield from hist_lines(kind, v, bb, rng, quick)
         # malformed: a non-final piece that is not block aligned
         if kind == 'blake': yield 'blakeseq %s 0 x0102 x03' % v, 'malformed'
         else: yield 'blake2seq %s x0102 x03' % v, 'malformed'
@@ -154,6 +273,10 @@ def cases(tier, rng):
 
 def shrink(line):
     t = line.split()
+    if t[0] in ('blakeseq.h', 'blake2seq.h'):
+        first = 3 if t[0] == 'blakeseq.h' else 2
+        for i in range(first, len(t) - 1): yield ' '.join(t[:i] + t[i + 1:])
+        return
     first = 3 if t[0] == 'blakeseq' else 2
     if len(t) > first + 1:
         for i in range(first, len(t) - 1):
